@@ -199,6 +199,11 @@ def main(engine_name, argv=None):
     chunk_timeout = 600
     ctx = multiprocessing.get_context('fork')
     harness_fail = None
+    known_keys = {f.get('key') for f in load_known().get('findings', []) if f.get('property') == prop}
+
+    def unknown_violations():
+        # listed findings do not end the exploration early: a different violation must still be found
+        return sum(1 for v in agg['violations'] if eng.finding_key(v) not in known_keys)
     with ProcessPoolExecutor(max_workers=args.workers, mp_context=ctx, initializer=_limit_worker) as ex:
         pending = set()
 
@@ -226,7 +231,7 @@ def main(engine_name, argv=None):
                         if s.get('wall', 0) > agg.get('slowest', [0, 0])[0]:
                             agg['slowest'] = [s['wall'], s['index']]
                         eng.aggregate(agg, s)
-                    if time.time() < deadline and len(agg['violations']) < 8:
+                    if time.time() < deadline and unknown_violations() < 8:
                         submit()
         except Exception as e:  # BrokenProcessPool etc.
             harness_fail = 'worker pool failure: %r' % (e,)
